@@ -152,10 +152,12 @@ theorem C50_outside_root_irrelevant (c1 c2 : Cfg) (h : AgreeBelowRoot c1 c2)
 theorem C50_agree_add_outside (cfg : Cfg) (e : Entry) (rootRel : List Str)
     (hroot : rootSegs cfg = cfg.sb ++ rootRel)
     (hexists : ∃ e0 ∈ cfg.tree, rootRel <+: e0.path)
-    (hout : ¬ (e.path <+: rootRel) ∧ ¬ (rootRel <+: e.path)) :
+    (hout : ¬ (e.path <+: rootRel) ∧ ¬ (rootRel <+: e.path))
+    (hnolink : ∀ e0 ∈ cfg.tree, ∀ t, e0.node ≠ Node.link t) :
     AgreeBelowRoot cfg { cfg with tree := cfg.tree ++ [e] } := by
   refine ⟨rfl, rfl, ?_⟩
   intro p hp
+  refine ⟨?_, nodeAt_notLink cfg.tree hnolink p⟩
   rw [hroot] at hp
   have hp' : p <+: rootRel ∨ rootRel <+: p := by
     rcases hp with h | h
@@ -189,7 +191,7 @@ theorem C50_agree_add_outside (cfg : Cfg) (e : Entry) (rootRel : List Str)
 example : AgreeBelowRoot { exCfg with tree := [{ path := [[0x72], [0x61]], node := Node.file [1, 2, 3] }] } exCfg :=
   C50_agree_add_outside { exCfg with tree := [{ path := [[0x72], [0x61]], node := Node.file [1, 2, 3] }] }
     { path := [[0x73]], node := Node.file [9] } [[0x72]] (by decide) ⟨_, List.mem_singleton.mpr rfl, by decide⟩
-    ⟨by decide, by decide⟩
+    ⟨by decide, by decide⟩ (by intro e0 he t; simp at he; subst he; simp)
 
 /-! ### the 500 answers -/
 
@@ -313,5 +315,116 @@ theorem C50_reload_last_conf (tree : List Entry) (sb : List Str) (cs : List SCon
   unfold serveH
   rw [C50_reload_in_force, C50_reload_in_force]
   simp [sInForce]
+
+/-! ### rule FILES and their reloads, symbolic links, Accept-Encoding -/
+
+/-- **C50_file_reload_in_force**: for every history of rule-file (re)loads — accepted and rejected files, any
+    version strings — the rules the handler sees are those of the last ACCEPTED file. -/
+theorem C50_file_reload_in_force (tree : List Entry) (sb : List Str) (cs : List FConf) (product : Str) :
+    slookup (ftableAfter tree sb cs) product = fInForce tree sb cs product := by
+  unfold ftableAfter fInForce
+  have h : ∀ (t : List (Str × List SRule)), cs.foldl (fupdate tree sb) t =
+      match cs.reverse.find? (fconfOk tree sb) with | some c => c.toSConf.products | none => t := by
+    induction cs with
+    | nil => intro t; rfl
+    | cons c cs ih =>
+      intro t
+      simp only [List.foldl_cons, List.reverse_cons, List.find?_append]
+      rw [ih]
+      cases hf : cs.reverse.find? (fconfOk tree sb) with
+      | some c' => rfl
+      | none =>
+        simp only [Option.none_or, List.find?_cons, List.find?_nil, fupdate]
+        cases hc : fconfOk tree sb c <;> simp
+  rw [h]
+  cases cs.reverse.find? (fconfOk tree sb) <;> rfl
+
+/-- a rejected rule file changes nothing -/
+theorem C50_file_reload_rejected_keeps (tree : List Entry) (sb : List Str) (cs : List FConf) (c : FConf)
+    (hbad : fconfOk tree sb c = false) : ftableAfter tree sb (cs ++ [c]) = ftableAfter tree sb cs := by
+  unfold ftableAfter
+  simp [List.foldl_append, fupdate, hbad]
+
+theorem pickVariant_enc (cfg : Cfg) (f : Str) (encs : List Enc) (e : Enc)
+    (h : (pickVariant cfg f encs).2 = some e) : e ∈ encs := by
+  induction encs with
+  | nil => simp [pickVariant] at h
+  | cons x xs ih =>
+    unfold pickVariant at h
+    split at h
+    · simp at h; simp [h]
+    · exact List.mem_cons_of_mem _ (ih h)
+
+/-- **C50_variant_only_accepted**: a pre-compressed variant (Content-Encoding gzip / br) is only ever served
+    for an encoding in the accepted list, i.e. EnableCompress is on and `HasToken(Accept-Encoding, coding)`. -/
+theorem C50_variant_only_accepted (cfg : Cfg) (method path : Str) (ec : Bool) (ae : Str) (df : Str) (e : Enc)
+    (h : (serve cfg method path (acceptedEncodings ec ae) df).enc = some e) :
+    ec = true ∧ hasToken ae (match e with | .gzip => tokGzip | .br => tokBr) = true := by
+  have hmem : e ∈ acceptedEncodings ec ae := by
+    unfold serve at h
+    split at h
+    · simp at h
+    · cases ho : openStaticFile cfg path (acceptedEncodings ec ae) df with
+      | error x => rw [ho] at h; simp at h
+      | ok r =>
+        obtain ⟨c, en⟩ := r
+        rw [ho] at h
+        simp only [] at h
+        subst h
+        have : ∃ f, newStaticFile cfg f (acceptedEncodings ec ae) = .ok (c, some e) := by
+          unfold openStaticFile at ho
+          split at ho
+          · rename_i r hr; exact ⟨path, by rw [hr, ← ho]⟩
+          · split at ho
+            · exact ⟨df, ho⟩
+            · cases ho
+        obtain ⟨f, hf⟩ := this
+        unfold newStaticFile at hf
+        simp only [] at hf
+        split at hf
+        · cases hf
+        · split at hf
+          · simp only [Except.ok.injEq, Prod.mk.injEq] at hf
+            exact pickVariant_enc cfg f _ e hf.2
+          · cases hf
+          · cases hf
+          · cases hf
+  unfold acceptedEncodings at hmem
+  cases ec with
+  | false => simp at hmem
+  | true =>
+    refine ⟨rfl, ?_⟩
+    simp only [if_true, List.mem_append] at hmem
+    cases e with
+    | gzip =>
+      rcases hmem with h1 | h1
+      · by_cases hg : hasToken ae tokGzip = true
+        · exact hg
+        · simp [hg] at h1
+      · by_cases hb : hasToken ae tokBr = true <;> simp [hb] at h1
+    | br =>
+      rcases hmem with h1 | h1
+      · by_cases hg : hasToken ae tokGzip = true <;> simp [hg] at h1
+      · by_cases hb : hasToken ae tokBr = true
+        · exact hb
+        · simp [hb] at h1
+
+/-- **Finding** (`variant-despite-q0`): `HasToken` does not read weights.  `Accept-Encoding: gzip ;q=0` (optional
+    white space before the semicolon is legal, RFC 7231) says gzip is NOT acceptable, yet the token test
+    succeeds and the `.gz` variant is served. -/
+theorem C50_witness_variant_despite_q0 :
+    hasToken [0x67, 0x7a, 0x69, 0x70, 0x20, 0x3b, 0x71, 0x3d, 0x30] tokGzip = true ∧
+    specAccepts [0x67, 0x7a, 0x69, 0x70, 0x20, 0x3b, 0x71, 0x3d, 0x30] tokGzip = false := by decide
+
+def exCfgLink : Cfg :=
+  { tree := [{ path := [[0x72], [0x6c]], node := Node.link [[0x73]] }, { path := [[0x73]], node := Node.file [9] }],
+    sb := [[0x53]], root := [0x2f, 0x53, 0x2f, 0x72] }
+
+/-- **Finding** (`symlink-leaves-root`; the stated assumption of C50 made explicit): containment is lexical.
+    A symbolic link below the root that points outside (`/S/r/l -> /S/s`) is followed, so `GET /l` is answered
+    with the bytes of a file that is not below the document root. -/
+theorem C50_witness_symlink_leaves_root :
+    serve exCfgLink sGET [0x2f, 0x6c] [] [] = { status := 200, clen := some 1, body := [9] } ∧
+    ¬ (filesUnderRoot exCfgLink).contains [9] := by decide
 
 end BfeVerif.C50
